@@ -26,6 +26,9 @@ func init() {
 			{"C18.R2", "q", "shared: keep table", c18r2},
 			{"C18.R4", "q", "shared: rewritten file cut and released on every exit", c18r4},
 			{"C18.R5", "q", "shared: earlier file appended to, never overwritten", c18r5},
+			{"C13.R12", "q", "shared: collision table takes the position of a record moved by GC", c13r12},
+			{"C13.R9", "q", "shared: a colliding key in the hint buffer is reported to GC", c13r9},
+			{"C14.R4", "q", "shared: merge order and position comparison", c14r4},
 		},
 	})
 }
